@@ -116,6 +116,8 @@ def run(repo='/repo', tier='quick'):
     c13e(db, res)
     c13d(db, res)
     res.assumptions.append('that the components partition the target (re-joining reproduces it) is a statement about values and is not decided')
+    c13f(db, res)
+    c13g(db, res)
     return res
 
 
@@ -294,3 +296,56 @@ def c13e(db, res):
         same = wa[0][0] is not None and wb[0][0] is not None and P.K(wa[0][0]) == P.K(wb[0][0]) and wa[0][1] == wb[0][1] and wa[1] == wb[1]
         res.check(same, 'C13.e', 'htp_parse_hostport:same-window:%s' % P.K(c['args'][0])[:30], 'reported and converted port text are the same window',
                   'htp_parse_hostport reports the port text %s but converts %s: the raw port component and the numeric port disagree (a ":" ends up in the reported port, host and port no longer re-join to the authority)' % (S(cp)[:60], S(c)[:60]), c['loc'])
+
+
+def c13f(db, res):
+    """For CONNECT the target is an authority; htp_parse_uri_hostport() reports what htp_parse_hostport() split off. The raw
+    components are reported whether or not the authority is valid (validity is an indicator, not a filter): host, port text and
+    port number handed out by the splitter all end up in the URI structure on every successful return."""
+    res.rule('C13.f', 'what the authority splitter hands out is reported: in htp_parse_uri_hostport each of the hostname / port / port_number out-parameters of htp_parse_hostport is the URI field itself, or a local that is stored into that field on every path to a successful return and never released')
+    f = db.get('htp_parse_uri_hostport')
+    n = 0
+    for b, i, c in f.calls('htp_parse_hostport'):
+        for pos, fld in ((1, 'hostname'), (2, 'port'), (3, 'port_number')):
+            a = strip(c['args'][pos])
+            n += 1
+            key = 'htp_parse_uri_hostport:%s' % fld
+            if a.get('k') == 'un' and a['op'] == '&' and P.member_field(a['e']) == fld:
+                res.holds('C13.f', key, 'the splitter writes uri->%s directly' % fld, c['loc'])
+                continue
+            if not (a.get('k') == 'un' and a['op'] == '&' and strip(a['e']).get('k') == 'var'):
+                res.unknown('C13.f', key, 'out-parameter is neither the URI field nor a local', c['loc'])
+                continue
+            L = strip(a['e'])['name']
+            bad = None
+            for atoms, events, end, seq in P.enum_paths_seq(f, (b, i), max_paths=20000):
+                if end[0] != 'return' or lit_name(P.ret_value(end[3])) != 'HTP_OK':
+                    continue
+                stored = any(x[0] == 'stmt' and any(P.K(w['r']) == L for w in P.assigns_field(x[3], fld)) for x in seq)
+                freed = any(x[0] == 'stmt' and any(c2.get('callee') in ('bstr_free', 'free') and c2.get('args') and P.K(c2['args'][0]) == L for c2 in nodes(x[3], lambda y: y.get('k') == 'call')) for x in seq)
+                if any(a_[0] == L and a_[1] == '==' and a_[2] == '0' for a_, e_ in atoms):
+                    continue                               # nothing was handed out on this path
+                if freed or not stored:
+                    bad = end[3]
+            res.check(bad is None, 'C13.f', key, 'stored into uri->%s on every successful path' % fld,
+                      'htp_parse_uri_hostport returns HTP_OK on a path where the %s the splitter handed out is dropped instead of stored in uri->%s: a CONNECT target with an invalid authority (port 0, 65536, "80x") loses that component, and the reported components no longer re-join to the target' % (fld, fld), (bad or c).get('loc', f.loc))
+    res.floor('C13.f', 'out-parameters of the authority splitter', n, 3)
+
+
+def c13g(db, res):
+    """The hybrid API takes the request target (and the other line components) from the application. "No byte is invented or
+    dropped" holds for it only if the setter stores exactly the bytes it was given."""
+    res.rule('C13.g', 'hybrid setters store the bytes they are given: every copy_or_wrap_mem(P, N, alloc) in a public setter takes the setter\'s own (pointer, length) parameters, and neither is written in that function')
+    n = 0
+    for name, f in sorted(db.fn.items()):
+        if not f.blocks or name == 'copy_or_wrap_mem':
+            continue
+        for b, i, c in f.calls('copy_or_wrap_mem'):
+            n += 1
+            a0, a1 = strip(c['args'][0]), strip(c['args'][1])
+            params = [p['name'] for p in f.params]
+            ok = a0.get('k') == 'var' and a1.get('k') == 'var' and a0['name'] in params and a1['name'] in params
+            written = ok and any(strip(w['l']).get('k') == 'var' and strip(w['l'])['name'] in (a0['name'], a1['name']) for bb, ii, st in f.stmts() for w in nodes(st, lambda y: y.get('k') == 'assign'))
+            res.check(ok and not written, 'C13.g', '%s:copy(%s,%s)' % (name, P.K(a0) if ok else '?', P.K(a1) if ok else '?'), 'the parameters are stored as given',
+                      '%s stores (%s, %s) instead of the bytes it was given: bytes of the supplied value are dropped before it is reported (a request target such as " /a" or "/a\\t" loses bytes that then belong to no component)' % (name, P.K(a0), P.K(a1)), c['loc'])
+    res.floor('C13.g', 'copies in the hybrid setters', n, 8)
